@@ -327,5 +327,8 @@ func runC01(cx *Ctx, r *Report) {
 	r.requireCount("price-formula", 6)
 	r.requireCount("liquidity-formula", 6)
 	r.requireCount("reserve-guard", 7)
+	if n := cx.exactNameLookupRule(r, "coinswap", []string{"str:lptDenom/", "str:pool/"}, "name-lookup-exact"); n < 2 {
+		r.toolErr("only %d name-keyed lookups of the pool records found in the coinswap keeper (≥2 confirmed)", n)
+	}
 	r.requireCount("fee-provenance", 2)
 }
